@@ -301,6 +301,15 @@ fn shape_doc(doc: &[AEv], idname: &mut Vec<String>, counter: &mut usize, rng: &m
             "SS" | "MS" => {
                 if let Some((true, ek)) = stack.last_mut() { *ek = !*ek; }
                 stack.push((e.k == "MS", true));
+                if at_key {
+                    // a container used as a key: a unique first member keeps mapping keys distinct
+                    *counter += 1;
+                    let is_map = e.k == "MS";
+                    out.push(e);
+                    out.push(AEv::new("S", 0, &format!("u{counter}"), "p", ""));
+                    if is_map { out.push(AEv::new("S", 0, "1", "p", "")); }
+                    continue;
+                }
             }
             _ => { stack.pop(); }
         }
@@ -377,6 +386,10 @@ pub fn run(args: &Args) -> i32 {
             prefixed.push(format!("{s}\naé𝄞:\t&x \"q𝄞\"\né: *x\n"));
         }
     }
+    // debugging aid: `--one <file>` runs a single document
+    let one_text: Option<String> = args.get("one").map(|p| std::fs::read_to_string(p).expect("read --one"));
+    let fixed: Vec<&str> = match &one_text { Some(t) => vec![t.as_str()], None => fixed };
+    let n = if one_text.is_some() { 0 } else { n };
     let nf = fixed.len() + prefixed.len();
     for i in 0..n + nf {
         let text: String = if i < fixed.len() { fixed[i].to_string() } else if i < nf { std::mem::take(&mut prefixed[i - fixed.len()]) } else {
@@ -389,7 +402,8 @@ pub fn run(args: &Args) -> i32 {
             names: 3,
             p_anchor: (1, 3),
             p_alias: (1, 4),
-            container_keys: false,
+            // every fourth document may use sequences / mappings as keys (nodes inside a complex key carry locations too)
+            container_keys: i % 4 == 1,
         };
         let (doc0, mut idname) = g.generate(&mut rng);
         // one name per definition: resolution by name (YAML) and by id (the generator) then agree
@@ -409,7 +423,7 @@ pub fn run(args: &Args) -> i32 {
         let has_alias = raw.iter().any(|e| e.k == "AL");
         let has_merge = raw.iter().any(|e| e.k == "S" && e.v == "<<" && e.q == "p");
         // the input as handed to the library: now and then behind a byte order mark (positions are those of the stripped text)
-        let input = if rng.chance(1, 6) { format!("\u{feff}{text}") } else { text.clone() };
+        let input = if rng.chance(1, 6) || args.get("bom").is_some() { format!("\u{feff}{text}") } else { text.clone() };
         // (a) every node wrapped in the span-carrying type
         let t2 = input.clone();
         let parsed = guarded(move || serde_saphyr::from_str::<SpTree>(&t2));
@@ -441,7 +455,8 @@ pub fn run(args: &Args) -> i32 {
         let ok = eclass.is_empty();
         w.put(&Rec { id: format!("sp{i}"), kind: "span", yaml: &text, text: text_classes(&text), raw: raw.clone(), pos: pos.clone(), tree: tree.clone(), site: 0, hasloc: false, eprimary: Loc::default(), eref: Loc::default(), edef: Loc::default(), eclass });
         // (b) a type error provoked at every non-key node in turn: the typed target asks for an integer there
-        if ok {
+        let container_keys = { let mut st: Vec<(bool, bool)> = vec![]; let mut found = false; for e in raw.iter() { let at_key = matches!(st.last(), Some((true, true))); match e.k.as_str() { "S" | "AL" => { if let Some((true, ek)) = st.last_mut() { *ek = !*ek; } } "SS" | "MS" => { if at_key { found = true; } if let Some((true, ek)) = st.last_mut() { *ek = !*ek; } st.push((e.k == "MS", true)); } _ => { st.pop(); } } } found };
+        if ok && !container_keys {
             let mut sites = vec![];
             value_sites(&tree, &mut sites);
             let shape: Vec<String> = sites.iter().map(|o| o.k.clone()).collect();
